@@ -28,7 +28,7 @@ func main() {
 	want := map[string]string{}
 	for _, s := range os.Args[2:] {
 		kv := strings.SplitN(s, "=", 2)
-		if len(kv) != 2 || strings.Count(kv[0], ".") != 2 {
+		if len(kv) != 2 || (strings.Count(kv[0], ".") != 2 && strings.Count(kv[0], ".") != 1) {
 			fmt.Println("bad spec", s)
 			os.Exit(2)
 		}
@@ -78,6 +78,25 @@ func main() {
 			}
 			return "", false
 		}
+		// pkg.Name=new: a package-level type or variable
+		switch x := o.(type) {
+		case *types.TypeName:
+			if x.Pkg() != nil && x.Parent() == x.Pkg().Scope() {
+				if nn, ok := want[x.Pkg().Name()+"."+x.Name()]; ok {
+					used[x.Pkg().Name()+"."+x.Name()] = true
+					return nn, true
+				}
+			}
+			return "", false
+		case *types.Var:
+			if !x.IsField() && x.Pkg() != nil && x.Parent() == x.Pkg().Scope() {
+				if nn, ok := want[x.Pkg().Name()+"."+x.Name()]; ok {
+					used[x.Pkg().Name()+"."+x.Name()] = true
+					return nn, true
+				}
+				return "", false
+			}
+		}
 		v, ok := o.(*types.Var)
 		if !ok || !v.IsField() || v.Embedded() || v.Pkg() == nil {
 			return "", false
@@ -85,7 +104,7 @@ func main() {
 		// find the named struct declaring it: by position inside a type spec of the package
 		for k, nn := range want {
 			parts := strings.Split(k, ".")
-			if v.Pkg().Name() != parts[0] || v.Name() != parts[2] {
+			if len(parts) != 3 || v.Pkg().Name() != parts[0] || v.Name() != parts[2] {
 				continue
 			}
 			tn, _ := v.Pkg().Scope().Lookup(parts[1]).(*types.TypeName)
